@@ -407,9 +407,11 @@ class PlExpr:
         s = sort_of_pltype(dtype)
         x = self.nv
         fam = family_of_pltype(dtype)
-        if s is None or s == x.sort:
-            if fam in ("int", "float", "bool", "string") or x.sort != INT:
-                return PlExpr(x, self.kind, ("cast", self.node, str(dtype), strict), dtype, self.order_id)
+        src_fam = family_of_pltype(self.pltype) if self.pltype is not None else None
+        same_family = src_fam == fam if src_fam is not None else (s == x.sort and fam in ("int", "float", "bool", "string"))
+        if s is None or (s == x.sort and same_family):
+            _ax("polars: a cast within the same type family keeps the value (overflow / precision aside, A-math)")
+            return PlExpr(x, self.kind, ("cast", self.node, str(dtype), strict), dtype, self.order_id)
         if x.sort == INT and s == REAL:
             _ax("polars: int -> float cast is exact (A-math)")
             r = NV(x.null, z3.ToReal(x.val))
@@ -424,15 +426,16 @@ class PlExpr:
         elif x.sort == INT and s == BOOL:
             r = NV(x.null, x.val != 0)
         else:
-            # engine-native text formats: uninterpreted per engine
-            f = z3.Function(f"pl_cast_{x.sort}_{fam}", x.sort, s)
+            # engine-native text formats / temporal conversions: uninterpreted per engine; null stays null
+            _ax("polars: a strict cast keeps null as null and maps non-null values by the engine's conversion function (uninterpreted)")
+            f = z3.Function(f"pl_cast_{src_fam or x.sort}_{fam}", x.sort, s)
             r = NV(x.null, f(x.val))
         return PlExpr(r, self.kind, ("cast", self.node, str(dtype), strict), dtype, self.order_id)
 
     def replace(self, old, new=None, **kw):
         if self.nv.sort == STR and isinstance(old, str) and isinstance(new, str):
             _ax("polars: replace(old,new) maps exactly the value old to new")
-            return self._mk(NV(self.nv.null, z3.If(self.nv.val == z3.StringVal(old), z3.StringVal(new), self.nv.val)), "replace", old, new)
+            return self._mk(NV(self.nv.null, z3.If(self.nv.val == z3.StringVal(old), z3.StringVal(new), self.nv.val)), "replace", old, new, pltype=self.pltype)
         raise Unsupported("polars model: replace")
 
     # -- aggregation (abstract group) -----------------------------------------------
